@@ -984,7 +984,29 @@ def m_set(x=()):
             if not any(truth(compare('==', v, w)) for w in out):
                 out.append(v)
         return SymSet(out)
+    if xs and all(type(v).__hash__ is object.__hash__ for v in xs):
+        return IdOrderedSet(xs)
     return set(xs)
+
+
+class IdOrderedSet(set):
+    """set of objects hashed by identity: python iterates such a set in address order, which differs from one
+    re-execution of a path to the next; the engine replays decisions by position, so iteration here is made
+    deterministic (insertion order - one of the orders the real set may produce)"""
+
+    def __init__(self, xs=()):
+        set.__init__(self)
+        self._order = []
+        for x in xs:
+            self.add(x)
+
+    def add(self, x):
+        if not set.__contains__(self, x):
+            self._order.append(x)
+        set.add(self, x)
+
+    def __iter__(self):
+        return iter([x for x in self._order if set.__contains__(self, x)])
 
 
 def mk_dict(pairs):
@@ -1093,7 +1115,7 @@ MODELS.update({int: m_int, str: m_str, len: m_len, sum: m_sum, bool: m_bool, abs
                all: m_all, bytes: m_bytes, repr: m_repr, format: m_format,
                isinstance: m_isinstance, type: m_type, getattr: m_getattr, setattr: m_setattr,
                hasattr: m_hasattr, print: m_print})
-ALWAYS_MODEL.update({isinstance, type, getattr, setattr, hasattr, print, str})
+ALWAYS_MODEL.update({isinstance, type, getattr, setattr, hasattr, print, str, set})
 
 
 # ---------------------------------------------------------------- f-strings / format
